@@ -174,6 +174,21 @@ Theorem C07_accepted_with_widths : forall pw prog d res,
 Proof. exact elab_w_some. Qed.
 Print Assumptions C07_accepted_with_widths.
 
+(* 11. The value an integer right-hand side denotes (`t |= v`): a constant of the target's width w --
+       accepted exactly for -2^(w-1) <= v < 2^w, and then the value is v modulo 2^w in [0, 2^w)
+       (two's complement for negatives).  The harness compares this rule (and its Python twin coerce_ok,
+       which also covers bools, Verilog strings, Const objects and wires) with the real |= on every
+       kind of right-hand side in every slot. *)
+Theorem C07_int_rhs_value : forall w v x, 0 < w -> coerce_int w v = Some x ->
+  0 <= x < 2 ^ w /\ x mod 2 ^ w = v mod 2 ^ w /\ - 2 ^ (w - 1) <= v < 2 ^ w.
+Proof. exact coerce_int_some. Qed.
+Print Assumptions C07_int_rhs_value.
+
+Theorem C07_int_rhs_rejected : forall w v, 0 < w ->
+  (coerce_int w v = None <-> v >= 2 ^ w \/ v < - 2 ^ (w - 1)).
+Proof. exact coerce_int_none. Qed.
+Print Assumptions C07_int_rhs_rejected.
+
 (* ---- non-vacuity: the docstring example of conditional.py extended with a memory, a nested
    otherwise and a chain restarted after an otherwise *)
 Definition ex_prog : list ctree :=
